@@ -47,16 +47,20 @@ def run_tests(pid, tier, only=None):
         open(os.path.join(d, 'Cargo.toml'), 'w').write(ct)
         injected = set()
         for t in regs:
-            if t['file'] in injected:
-                continue
-            injected.add(t['file'])
-            target = os.path.join(d, t['inject'])
-            if not os.path.exists(target):
-                out.append({'test': t['name'], 'target': t['target'], 'status': 'engine-failure', 'reason': 'source file missing: ' + t['inject']})
-                continue
-            with open(target, 'a') as f:
-                f.write('\n#[cfg(rozukke_lace_verif)]\n#[path = "%s"]\nmod verif_native_%s;\n' % (
-                    os.path.join(NDIR, t['file']), t['file'][:-3]))
+            # 'requires': helper modules (no tests of their own) another source file must carry for this test
+            # (collected over every registered test of the same file: the file is compiled as a whole)
+            needs = [(r['file'], r['inject']) for t2 in registry() if t2['file'] == t['file'] for r in t2.get('requires', [])]
+            for fname, inject in [(t['file'], t['inject'])] + needs:
+                if fname in injected:
+                    continue
+                injected.add(fname)
+                target = os.path.join(d, inject)
+                if not os.path.exists(target):
+                    out.append({'test': t['name'], 'target': t['target'], 'status': 'engine-failure', 'reason': 'source file missing: ' + inject})
+                    continue
+                with open(target, 'a') as f:
+                    f.write('\n#[cfg(rozukke_lace_verif)]\n#[path = "%s"]\npub(crate) mod verif_native_%s;\n' % (
+                        os.path.join(NDIR, fname), fname[:-3]))
         env = dict(os.environ, CARGO_NET_OFFLINE="true", RUSTFLAGS="--cfg rozukke_lace_verif", VERIF_NATIVE_OUT=os.path.join(d, "verif_native.out"), VERIF_NATIVE_TIER=tier,
                    CARGO_TARGET_DIR=os.path.join(SCRATCH_ROOT, 'lace-native-target'))
         if any(t.get('needs_bin') for t in regs):
